@@ -1017,6 +1017,40 @@ def _inline_star_tuples(fn: ast.AST, keep: set[str] | None = None) -> bool:
     return done
 
 
+def _sort_in_place(fn: ast.AST, keep: set[str] | None = None) -> bool:
+    """N29: `x = <list display / comprehension>` immediately followed by `x.sort(...)` is `x = sorted(<it>, ...)` (a fresh
+    list nobody else holds); N30: `dict.fromkeys(it, c)` with a constant c is `{k: c for k in it}`."""
+    done = False
+    for _o, blk in list(_blocks(fn)):
+        k = 0
+        while k + 1 < len(blk):
+            a, b = blk[k], blk[k + 1]
+            k += 1
+            if isinstance(a, ast.Assign) and len(a.targets) == 1 and isinstance(a.targets[0], ast.Name) and isinstance(a.value, (ast.List, ast.ListComp)) \
+                    and isinstance(b, ast.Expr) and isinstance(b.value, ast.Call) and isinstance(b.value.func, ast.Attribute) and b.value.func.attr == 'sort' \
+                    and isinstance(b.value.func.value, ast.Name) and b.value.func.value.id == a.targets[0].id and not b.value.args:
+                a.value = ast.copy_location(ast.Call(func=ast.Name(id='sorted', ctx=ast.Load()), args=[a.value], keywords=b.value.keywords), a.value)
+                ast.fix_missing_locations(a)
+                del blk[k]
+                done = True
+
+    class _FK(ast.NodeTransformer):
+        def visit_Call(self, c: ast.Call) -> ast.AST:  # noqa: N802
+            self.generic_visit(c)
+            if isinstance(c.func, ast.Attribute) and c.func.attr == 'fromkeys' and isinstance(c.func.value, ast.Name) and c.func.value.id == 'dict' and len(c.args) == 2 \
+                    and not c.keywords and (isinstance(c.args[1], ast.Constant) or (isinstance(c.args[1], ast.UnaryOp) and isinstance(c.args[1].operand, ast.Constant))):
+                var = '_kfv_k'
+                return ast.copy_location(ast.DictComp(key=ast.Name(id=var, ctx=ast.Load()), value=c.args[1],
+                                                      generators=[ast.comprehension(target=ast.Name(id=var, ctx=ast.Store()), iter=c.args[0], ifs=[], is_async=0)]), c)
+            return c
+    before = ast.dump(fn) if any(isinstance(x, ast.Attribute) and x.attr == 'fromkeys' for x in ast.walk(fn)) else None
+    if before is not None:
+        _FK().visit(fn)
+        ast.fix_missing_locations(fn)
+        done = done or ast.dump(fn) != before
+    return done
+
+
 def _default_rebind(fn: ast.AST, keep: set[str] | None = None) -> bool:
     """N25: `v = a; if v is None: v = b` with `a` a plain name / attribute and v a new local is `v = a if a is not None else b`
     (the default-value idiom written as a rebinding)."""
@@ -1114,6 +1148,7 @@ def _fold(fn: ast.AST, keep: set[str] | None = None) -> None:
     if isinstance(fn, (ast.FunctionDef, ast.AsyncFunctionDef)):
         _scalarise_records(fn, keep)
         _fuse_generators(fn, keep)
+        _sort_in_place(fn, keep)
         _inline_star_tuples(fn, keep)
         _default_rebind(fn, keep)
         if _split_versions(fn, keep):
@@ -1219,7 +1254,8 @@ def _self_field(e: ast.expr) -> ast.expr | None:
     return None
 
 
-PURE_PREDICATES = {'has_bias', 'get_world_size', 'get_rank', 'isinstance', 'callable', 'broadcast_gradients', 'broadcast_inverses'}
+PURE_PREDICATES = {'has_bias', 'get_world_size', 'get_rank', 'isinstance', 'callable', 'broadcast_gradients', 'broadcast_inverses',
+                   'set', 'frozenset', 'len', 'sorted', 'tuple'}      # the last five: fresh values computed from frozen arguments
 
 
 def _frozen_pure(e: ast.expr, mutable: set[str], in_init: bool) -> bool:
@@ -1412,6 +1448,36 @@ def _unroll(fn: ast.AST, consts: dict[str, ast.expr], log: list[str]) -> None:
             i = 0
             while i < len(blk):
                 st = blk[i]
+                # `for row in TABLE: if c(row): X(row); break` with an `else:` -> if c(r1): X(r1) elif c(r2): X(r2) ... else: ELSE
+                if isinstance(st, ast.For) and len(st.body) == 1 and isinstance(st.body[0], ast.If) and not st.body[0].orelse and st.body[0].body \
+                        and isinstance(st.body[0].body[-1], ast.Break) and not _has_jump(st.body[0].body[:-1]) and not _has_jump(st.orelse or []):
+                    seq0 = _const_seq(st.iter, consts)
+                    tn0 = [x.id for x in ast.walk(st.target) if isinstance(x, ast.Name)]
+                    ok0 = seq0 is not None and (isinstance(st.target, ast.Name) or (isinstance(st.target, ast.Tuple) and all(isinstance(e, ast.Name) for e in st.target.elts)
+                                                                                   and all(isinstance(x, ast.Tuple) and len(x.elts) == len(st.target.elts) for x in seq0)))
+                    if ok0:
+                        bst = set()
+                        for b in st.body:
+                            bst |= _stores(b)
+                        if set(tn0) & bst or set(tn0) & _loads(blk[i + 1:]) or set(tn0) & _loads(st.orelse or []):
+                            ok0 = False
+                    if ok0:
+                        chain: list[ast.stmt] = list(st.orelse) if st.orelse else []
+                        for x in reversed(seq0):
+                            m0 = {st.target.id: x} if isinstance(st.target, ast.Name) else {t.id: y for t, y in zip(st.target.elts, x.elts)}
+                            sub0 = _Sub(m0)
+                            iff = copy.deepcopy(st.body[0])
+                            iff.body = iff.body[:-1] or [ast.copy_location(ast.Pass(), st)]
+                            iff = sub0.visit(iff)
+                            iff.orelse = chain
+                            chain = [iff]
+                        blk[i:i + 1] = chain
+                        for x in chain:
+                            ast.fix_missing_locations(x)
+                        log.append(f'line {st.lineno}: search loop with break over {len(seq0)} constant rows unrolled into an if / elif chain')
+                        changed = True
+                        i += 1
+                        continue
                 if isinstance(st, ast.For) and not st.orelse and _has_jump(st.body) and _const_seq(st.iter, consts) is not None:
                     nb = _continue_to_nest(st.body)
                     if nb is not None:
